@@ -4,6 +4,22 @@ import json, os
 ROOT = os.path.dirname(os.path.dirname(os.path.abspath(__file__)))
 ALL = ["C%02d" % i for i in range(1, 20)]
 CHECKS = {
+ "C06": dict(cat="model_checking", ref="§3.6, §4 C06",
+   technique="exhaustive enumeration of emitter call histories (all sequences to depth 4/5 over a 25-symbol alphabet x 10 constructor variants) on the real Emitter against a reference model, plus a branch-distance sweep [-300,300]; Finalize outcome, patched bytes and error legitimacy compared; oracle closed under map iteration order",
+   text="Every call of every history runs on a fresh real Emitter and on the reference model (outcome, Bytes, Len, PC, Flags, GetLabel compared after each call); Finalize is then run twice and compared with the model's resolution: success iff all references resolvable and in range, exact operand bytes, nothing but operand bytes changed, legitimate error otherwise; duplicate labels must be refused without effect. The distance sweep covers every distance around both range ends for all eight label-taking methods, forward/backward, 1-3 references, with extra unresolved/out-of-range references, under every base.",
+   note="Depth/alphabet bounded. Go map order in Finalize is not controlled: the oracle accepts exactly the union of outcomes over all orders."),
+ "C15": dict(cat="model_checking", ref="§4 C15",
+   technique="exhaustive enumeration of emitter call histories with listing generation on (depth 4/5, 5 base variants) plus a data-length sweep; both listings of the real Emitter parsed and compared with Bytes() and the reference model's item list, before and after Finalize",
+   text="For every history the hex listing's byte tokens must concatenate to exactly Bytes() and the text listing is walked item by item against the model (base directive first, labels/comments where issued, instruction lines with the true address and bytes, data blocks covered contiguously once); listings must not fail or alter the program. EmitBytes lengths 0..70 (300) are swept alone, next to instructions and in exactly-sized buffers.",
+   note="16-per-line chunking and cosmetic column layout are not pinned."),
+ "C16": dict(cat="model_checking", ref="§4 C16",
+   technique="exhaustive enumeration of (history, split point, Append capacity edge) on real Emitters: head into A, Clone, tail into the clone, Append, differential comparison with a direct emitter and with A's own snapshot",
+   text="For every call sequence and every split point the Clone/Append emitter must equal the direct emitter on Bytes, Len, PC, Flags, labels, both listings, Finalize outcome and finalized bytes; A must equal its snapshot until Append; an Append that is one byte short must be refused leaving A unchanged, exact and roomy fits must succeed.",
+   note="Quick: depth 3 on all 10 variants with capacity edges + depth 4 on 2 variants; thorough: depth 4 / 5. Both Finalize errors must be legitimate, not equal (map order)."),
+ "C19": dict(cat="model_checking", ref="§4 C19",
+   technique="exhaustive enumeration of (history, capacity) pairs: every call sequence to depth 4/5 x every buffer capacity 0..size+1 and the nil-target emitter on the real Emitter against a capacity model, histories continue after refusals, then Finalize",
+   text="A call that does not fit must panic and leave Bytes, Len, PC, Flags and labels unchanged (and register no label reference, checked through Finalize); a call that fits behaves as in the unbounded model; Len never exceeds Cap; the nil-target emitter reports the same PC, labels and flags after every call.",
+   note="Listing lines are outside the property. Quick: 2 constructor variants, thorough: all 10."),
  "C14": dict(cat="model_checking", ref="§4 C14",
    technique="exhaustive enumeration of pre-step states for the three real trace renderers with a parsing oracle (address, bytes, mnemonic, operand digits, addressing-mode features, branch target, register/flag columns) plus every logged RunUntil scenario against an unlogged hand-stepped twin",
    text="Truthfulness: every case of the fetch/operation/flag/frame sweeps, all 256 displacements of every rel8 opcode and a rel16 boundary set are rendered by cpu65c816.DisassembleCurrentPC, cpualt.DisassembleCurrentPC and cpualt.Disassemble and each line is parsed and compared with the pre-step state and image; the call must leave registers, flags, cycles and memory untouched. Non-perturbation: every RunUntil scenario (programs to depth 2/3, all targets, budgets) with a plain and a Reserve/Commit logger must end exactly like the unlogged twin and contain exactly one truthful line per instruction about to execute.",
